@@ -430,7 +430,8 @@ pub fn gen_legacy(c: &mut Chooser, kind: LegacyKind) -> LegacyState {
         protocol: pick(c, &[78i32, 0, 1, 127, i32::MAX, -1]),
         version: s16(c, "1.6.4"),
         motd: s16(c, "A Minecraft Server"),
-        online: pick(c, &u32_alts(3)),
+        // (two digits, the first of them 1: a plain-format reply "<motd>§12§20" with an empty motd starts like the §1 marker)
+        online: pick(c, &u32_alts(12)),
         max: pick(c, &u32_alts(20)),
     }
 }
